@@ -254,7 +254,8 @@ def g_simple(rng, ctx, frag):
     if t == "new":
         return ("new",)
     if t in ("keyword", "unkeyword"):
-        return (t, rng.choice(KEYWORDS + ctx.flags))
+        w = rng.choice(KEYWORDS + ctx.flags)
+        return (t, w.swapcase() if rng.random() < 0.25 else w)
     if t == "seq":
         return ("seq", g_set(rng, ctx.n, frag or rng.random() < 0.6))
     if t == "uid":
@@ -334,6 +335,7 @@ HEADER = C.COQ_CASE_HEADER + "From Raven Require Import Base.Enum Model.Search M
 def rand_flags(rng):
     fl = ["\\" + f for f in SYSFLAGS if rng.random() < 0.3]
     fl += [k for k in KEYWORDS if rng.random() < 0.15]
+    fl = [f.lower() if rng.random() < 0.15 else f for f in fl]      # flag names are case-insensitive (d007c6d)
     rng.shuffle(fl)
     return fl
 
@@ -502,6 +504,7 @@ def history_ops(rng):
     for i in range(n):
         m = gen_text(rng)
         fl = ["\\" + f for f in SYSFLAGS[:5] if rng.random() < 0.25] + [k for k in KEYWORDS if rng.random() < 0.15]
+        fl = [f.lower() if rng.random() < 0.15 else f for f in fl]
         t = "p%d" % i
         ops.append({"op": "send", "conn": "c", "data": "%s APPEND INBOX (%s) {%d}\r\n" % (t, " ".join(fl), len(m)), "until": "cont:%s" % t})
         ops.append({"op": "send", "conn": "c", "data": C.latin(m) + "\r\n", "until": "tag:%s" % t})
@@ -601,9 +604,8 @@ def run_sessions(chk, n_sessions, n_progs):
         raws = [{"text": t, "uid": u} for (t, u) in [
             ("CHARSET UTF-8 ALL", False), ("CHARSET us-ascii SEEN", False), ("CHARSET KOI8-R ALL", False), ("CHARSET", False),
             ("CHARSET UTF-8", False), ("charset latin1 FROM a", False), ("", False), ("", True), ("all", True), ("uid 1:3 seen", True),
-            ("FOOUID 1:2", True), ("UID", True), ("UID 1:2:3", True), ("NOT", False), ("OR SEEN", False), (g_soup(r2, False), False), (g_soup(r2, False), r2.random() < 0.5)]]
-        # soups must not trigger the known process-killing panic in the middle of a session
-        raws = [r for r in raws if not re.search(r"(?i)\bOR\b", r["text"]) or r["text"] == "OR SEEN"]
+            ("FOOUID 1:2", True), ("UID", True), ("UID 1:2:3", True), ("NOT", False), ("OR SEEN", False), ("OR FROM x", False), ("OR BEFORE 1-Jan-2020", False), ("SEEN OR UID 1", False), (g_soup(r2, False), False), (g_soup(r2, False), r2.random() < 0.5)]]
+        # (OR soups are allowed again: the OR panic is repaired by bb43d4f)
         ops = list(h)
         for j, p in enumerate(progs):
             ops.append(cmd("s%d" % j, ("UID SEARCH " if p["uid"] else "SEARCH ") + p["text"]))
@@ -699,7 +701,7 @@ def replay_witnesses(chk):
             continue
         got = parse_reply(C.unlatin(r["obs"][-1].get("recv", "")), "w1")
         exp = w["expected"]
-        good = (got[0] == "ok" and exp[0] == "ok" and list(got[1]) == list(exp[1])) or (exp[0] == "error" and got[0] in ("no", "bad"))
+        good = (got[0] == "ok" and exp[0] == "ok" and list(got[1]) == list(exp[1])) or (exp[0] == "error" and got[0] in ("no", "bad")) or (exp[0] == "reply" and got[0] in ("ok", "no", "bad"))
         if not good:
             chk.violation("%s: %s answered %s, specification: %s" % (w["class"], w["command"], got, exp),
                           {"suite": "witness", "file": os.path.basename(path), "got": got}, cls=w["class"])
